@@ -543,6 +543,7 @@ func keyRun(ctx *Ctx) {
 		return
 	}
 	defer env.close()
+	defer keyCheckSnapshots(env)
 	if len(ctx.Replay) > 0 {
 		for _, l := range ctx.Replay {
 			keyReplay(env, l)
